@@ -571,3 +571,511 @@ Proof.
   rewrite lose_slots_nothing; [|exact HK|intros f; rewrite Hnull; reflexivity].
   split; [reflexivity|]. eapply rel_pointwise; [|exact HR]. intros f. rewrite Hnull. reflexivity.
 Qed.
+
+(* ---------------------------------------------------------------------------------------------- *)
+(** * E1. straight-line programs: a checked symbolic run.  `run_ok p o` collects, along the program, the
+      conditions under which no block is lost and no release is wrong; ids of new blocks are universally
+      quantified, so the conditions are about the ownership picture only. *)
+
+Definition freeable (s : slot) (claimed : nat) : bool :=
+  match s with Null => true | Owned _ b => Nat.eqb b claimed | _ => false end.
+
+Fixpoint run_ok (p : list action) (o : obj) : Prop :=
+  match p with
+  | [] => True
+  | a :: rest =>
+    match a with
+    | AAlloc f => is_owned (get o f) = false /\ forall id, run_ok rest (set o f (Owned id (claim o f)))
+    | AAllocB f b => is_owned (get o f) = false /\ forall id, run_ok rest (set o f (Owned id b))
+    | AFree f => freeable (get o f) (claim o f) = true /\ run_ok rest (set o f (after_free (get o f)))
+    | AFreeB f b => freeable (get o f) b = true /\ run_ok rest (set o f (after_free (get o f)))
+    | AFreeIf f => freeable (get o f) (claim o f) = true /\ run_ok rest (set o f Null)
+    | AMove src dst => is_owned (get o dst) = false /\ field_eqb src dst = false /\ run_ok rest (set (set o dst (get o src)) src Null)
+    | ASet f s => is_owned (get o f) = false /\ is_owned s = false /\ run_ok rest (set o f s)
+    | AThrow _ _ => run_ok rest o
+    | ANdim n => run_ok rest (with_ndim o n)
+    | AShape os ks ns => run_ok rest (with_shape o os ks ns)
+    | AAuxs n l => run_ok rest (with_auxs o n l)
+    | AReset => False
+    end
+  end.
+
+Lemma rel_free_any : forall Fr o m f c s', rel Fr o m -> freeable (get o f) c = true -> is_owned s' = false ->
+  (get o f = Null -> s' = Null) ->
+  rel Fr (set o f s') (m_free m (get o f) c).
+Proof.
+  intros Fr o m f c s' HR Hfr Hs' Hn. destruct (get o f) as [| |id b|] eqn:E; simpl in Hfr; try discriminate.
+  - rewrite (Hn eq_refl). eapply rel_pointwise; [|apply rel_free_null; exact HR].
+    intros g. rewrite get_set. destruct (field_eqb f g) eqn:Efg; [apply field_eqb_eq in Efg; subst; auto|reflexivity].
+  - apply Nat.eqb_eq in Hfr. subst c. apply rel_free_owned; auto.
+Qed.
+
+Lemma rel_set_unowned : forall Fr o m f s, rel Fr o m -> is_owned (get o f) = false -> is_owned s = false -> rel Fr (set o f s) m.
+Proof.
+  intros Fr o m f s [Hm Hs Hi Hf Hc] Ho Hs'. constructor; auto.
+  - intros g i c H. rewrite get_set in H. destruct (field_eqb f g); [subst s; discriminate|eauto].
+  - intros g1 g2 i c c' H1 H2. rewrite get_set in H1, H2.
+    destruct (field_eqb f g1); [subst s; discriminate|]. destruct (field_eqb f g2); [subst s; discriminate|]. eauto.
+  - intros i c HF. destruct (Hf _ _ HF) as [H1 H2]. split; [exact H1|]. intros g c'. rewrite get_set.
+    destruct (field_eqb f g); [intros E; subst s; discriminate|apply H2].
+  - intros i c Hin. destruct (Hc _ _ Hin) as [H1|[g H1]]; [left; exact H1|]. right. exists g. rewrite get_set.
+    destruct (field_eqb f g) eqn:E; [|exact H1]. apply field_eqb_eq in E; subst g. rewrite H1 in Ho; discriminate.
+Qed.
+
+Lemma exec_run_ok : forall Fr F p o m o' m' r,
+  rel Fr o m -> keys_nodup o -> run_ok p o -> exec F p m o = (o', m', r) -> rel Fr o' m' /\ keys_nodup o'.
+Proof.
+  intros Fr F p; induction p as [|a p IH]; intros o m o' m' r HR HK Hrun E.
+  - simpl in E. inversion E; subst. split; assumption.
+  - destruct a; cbn [exec run_ok] in *.
+    + destruct Hrun as [Hno Hrun]. destruct (m_alloc F m (claim o f)) as [[id|] m1] eqn:EA.
+      * rewrite (m_lose_notowned _ _ Hno) in E. eapply IH; [| |apply Hrun|exact E].
+        -- eapply rel_alloc_some; eauto.
+        -- apply keys_nodup_set; exact HK.
+      * inversion E; subst. split; [eapply rel_alloc_none; eauto|exact HK].
+    + destruct Hrun as [Hno Hrun]. destruct (m_alloc F m b) as [[id|] m1] eqn:EA.
+      * rewrite (m_lose_notowned _ _ Hno) in E. eapply IH; [| |apply Hrun|exact E].
+        -- eapply rel_alloc_some; eauto.
+        -- apply keys_nodup_set; exact HK.
+      * inversion E; subst. split; [eapply rel_alloc_none; eauto|exact HK].
+    + destruct Hrun as [Hfr Hrun]. eapply IH; [| |exact Hrun|exact E].
+      * apply rel_free_any; auto; destruct (get o f); simpl; auto; intros; discriminate.
+      * apply keys_nodup_set; exact HK.
+    + destruct Hrun as [Hfr Hrun]. eapply IH; [| |exact Hrun|exact E].
+      * apply rel_free_any; auto; destruct (get o f); simpl; auto; intros; discriminate.
+      * apply keys_nodup_set; exact HK.
+    + destruct Hrun as [Hfr Hrun]. eapply IH; [| |exact Hrun|exact E].
+      * destruct (get o f) as [| |id b|] eqn:Eg; simpl in Hfr; try discriminate; simpl.
+        -- eapply rel_pointwise; [|exact HR]. intros g. rewrite get_set.
+           destruct (field_eqb f g) eqn:Efg; [apply field_eqb_eq in Efg; subst; auto|reflexivity].
+        -- apply Nat.eqb_eq in Hfr. rewrite <- Hfr. apply rel_free_owned; auto.
+      * apply keys_nodup_set; exact HK.
+    + destruct Hrun as [Hno [Hne Hrun]]. rewrite (m_lose_notowned _ _ Hno) in E. eapply IH; [| |exact Hrun|exact E].
+      * apply rel_move; auto.
+      * apply keys_nodup_set. apply keys_nodup_set. exact HK.
+    + destruct Hrun as [Hno [Hs Hrun]]. rewrite (m_lose_notowned _ _ Hno) in E. eapply IH; [| |exact Hrun|exact E].
+      * apply rel_set_unowned; auto.
+      * apply keys_nodup_set; exact HK.
+    + destruct c; [inversion E; subst; split; assumption|]. eapply IH; eauto.
+    + eapply IH; [| |exact Hrun|exact E]; [eapply rel_pointwise; [|exact HR]; reflexivity|exact HK].
+    + eapply IH; [| |exact Hrun|exact E]; [eapply rel_pointwise; [|exact HR]; reflexivity|exact HK].
+    + eapply IH; [| |exact Hrun|exact E]; [eapply rel_pointwise; [|exact HR]; reflexivity|exact HK].
+    + contradiction.
+Qed.
+
+Lemma del_slot_idem : forall f l, del_slot f (del_slot f l) = del_slot f l.
+Proof.
+  intros f l; induction l as [|[g s] l IH]; simpl; [reflexivity|].
+  destruct (field_eqb g f) eqn:E; [exact IH|]. simpl. rewrite E, IH. reflexivity.
+Qed.
+
+Lemma set_set_same : forall o f s1 s2, set (set o f s1) f s2 = set o f s2.
+Proof.
+  intros o f s1 s2. unfold set; simpl.
+  assert (E : del_slot f (put_slot f s1 (slots o)) = del_slot f (slots o)).
+  { unfold put_slot. destruct s1; simpl; rewrite ?field_eqb_refl; apply del_slot_idem. }
+  unfold put_slot at 1 3. rewrite E. reflexivity.
+Qed.
+
+(* ---------------------------------------------------------------------------------------------- *)
+(** * E2. the invariant of an object between two operations *)
+
+Definition is_aux_field (f : field) : bool := match f with FAux | FAuxE _ | FAuxK _ | FAuxV _ => true | _ => false end.
+
+Definition tbl_fields (n : nat) : list field :=
+  [FOrder; FKnots; FNknots; FCoeff; FNaxes; FStrides; FExtents; FExtents0] ++ map FKnot (idx n).
+Definition aux_flds (k : nat) : list field := flat_map (fun i => [FAuxK i; FAuxV i; FAuxE i]) (idx k) ++ [FAux].
+Definition full_fields (n k : nat) : list field := FPeriods :: tbl_fields n ++ aux_flds k.
+
+Record obj_inv (o : obj) : Prop := {
+  oi_keys : keys_nodup o;
+  oi_ok : forall f, okslot (get o f) = true;                               (* no Unset / Dangling pointer *)
+  oi_claims : claims_ok o;                                                 (* sizes *)
+  oi_dom : forall f, get o f <> Null -> In f (full_fields (ndim o) (naux o));   (* nothing outside what clear() releases *)
+  oi_aux0 : naux o <> 0 -> is_owned (get o FAux) = true;
+  oi_auxi : forall i, i < naux o -> is_owned (get o (FAuxE i)) = true /\ is_owned (get o (FAuxK i)) = true /\ is_owned (get o (FAuxV i)) = true;
+  oi_auxlen : length (auxs o) = naux o;
+  oi_len : length (naxes o) = ndim o;
+  oi_tbl0 : ndim o = 0 -> forall f, is_aux_field f = false -> get o f = Null;   (* an empty table owns no table array *)
+  oi_tbl : ndim o <> 0 -> forall f, In f (tbl_fields (ndim o)) -> is_owned (get o f) = true   (* a populated one owns them all *)
+}.
+
+Lemma in_idx : forall i n, In i (idx n) <-> i < n.
+Proof. intros i n. unfold idx. rewrite in_seq. lia. Qed.
+
+Lemma in_aux_flds : forall f k, In f (aux_flds k) <-> f = FAux \/ exists i, i < k /\ (f = FAuxK i \/ f = FAuxV i \/ f = FAuxE i).
+Proof.
+  intros f k. unfold aux_flds. rewrite in_app_iff, in_flat_map. split.
+  - intros [[i [Hi Hf]]|Hf].
+    + right. exists i. apply in_idx in Hi. simpl in Hf. split; [exact Hi|]. intuition (subst; auto).
+    + left. simpl in Hf. intuition.
+  - intros [->|[i [Hi Hf]]]; [right; left; reflexivity|]. left. exists i. split; [apply in_idx; exact Hi|].
+    simpl. intuition (subst; auto).
+Qed.
+
+Lemma in_tbl_fields : forall f n, In f (tbl_fields n) <->
+  In f [FOrder; FKnots; FNknots; FCoeff; FNaxes; FStrides; FExtents; FExtents0] \/ exists i, i < n /\ f = FKnot i.
+Proof.
+  intros f n. unfold tbl_fields. rewrite in_app_iff, in_map_iff. split.
+  - intros [H|[i [Hf Hi]]]; [left; exact H|right; exists i; apply in_idx in Hi; auto].
+  - intros [H|[i [Hi Hf]]]; [left; exact H|right; exists i; split; [auto|apply in_idx; exact Hi]].
+Qed.
+
+Lemma obj_inv_empty : obj_inv empty_obj.
+Proof.
+  constructor; simpl; try reflexivity; try (intros; reflexivity); try (intros; lia); try (intros; congruence).
+  - constructor.
+  - intros f id b H. rewrite get_empty in H. discriminate.
+  - intros f H. rewrite get_empty in H. congruence.
+Qed.
+
+Lemma no_garbage_pointwise : forall o, keys_nodup o -> (forall f, okslot (get o f) = true) -> no_garbage o = true.
+Proof.
+  intros o HK H. unfold no_garbage. apply forallb_forall. intros [f s] Hin. simpl.
+  specialize (H f). unfold get in H. rewrite (in_get_slot _ _ _ HK Hin) in H. destruct s; simpl in *; congruence.
+Qed.
+
+Lemma clearable_intro : forall o,
+  (forall f, get o f <> Null -> In f (full_fields (ndim o) (naux o))) ->
+  (forall i, get o (FKnot i) <> Null -> get o FKnots <> Null) ->
+  (get o FExtents0 <> Null -> get o FExtents <> Null) -> clearable o.
+Proof.
+  intros o Hd Hk He f Hf. specialize (Hd f Hf). unfold clear_fields, full_fields in *.
+  destruct Hd as [<-|Hd]; [do 3 (apply in_or_app; right); simpl; auto|].
+  apply in_app_or in Hd. destruct Hd as [Hd|Hd].
+  2:{ unfold aux_flds in Hd. apply in_or_app; right. apply in_or_app; right. apply in_or_app; right. apply in_or_app; right. exact Hd. }
+  apply in_tbl_fields in Hd. destruct Hd as [Hd|[i [Hi ->]]].
+  - simpl in Hd.
+    destruct Hd as [<-|[<-|[<-|[<-|[<-|[<-|[<-|[<-|[]]]]]]]]].
+    + apply in_or_app; right. simpl; auto.
+    + apply in_or_app; left. destruct (get o FKnots); try congruence; simpl; apply in_or_app; right; simpl; auto.
+    + apply in_or_app; right. simpl; auto.
+    + apply in_or_app; right. apply in_or_app; right. apply in_or_app; right. simpl; auto.
+    + apply in_or_app; right. apply in_or_app; right. apply in_or_app; right. simpl; auto.
+    + apply in_or_app; right. apply in_or_app; right. apply in_or_app; right. simpl; auto.
+    + apply in_or_app; right. apply in_or_app; right. apply in_or_app; left.
+      destruct (get o FExtents); try congruence; simpl; auto.
+    + apply in_or_app; right. apply in_or_app; right. apply in_or_app; left.
+      specialize (He Hf). destruct (get o FExtents); try congruence; simpl; auto.
+  - apply in_or_app; left. specialize (Hk i Hf).
+    destruct (get o FKnots); try congruence; simpl; apply in_or_app; left; apply in_map; apply in_idx; exact Hi.
+Qed.
+
+Lemma owned_not_null : forall s, is_owned s = true -> s <> Null.
+Proof. intros s H ->. discriminate. Qed.
+
+Lemma obj_inv_clearable : forall o, obj_inv o -> clearable o.
+Proof.
+  intros o I. apply clearable_intro; [apply (oi_dom _ I)| |].
+  - intros i Hi. destruct (Nat.eq_dec (ndim o) 0) as [E|E].
+    + exfalso. apply Hi. apply (oi_tbl0 _ I E). reflexivity.
+    + apply owned_not_null. apply (oi_tbl _ I E). simpl; auto.
+  - intros Hi. destruct (Nat.eq_dec (ndim o) 0) as [E|E].
+    + exfalso. apply Hi. apply (oi_tbl0 _ I E). reflexivity.
+    + apply owned_not_null. apply (oi_tbl _ I E). simpl; auto 10.
+Qed.
+
+Lemma obj_inv_part0 : forall Fr o m, obj_inv o -> rel Fr o m -> part0 Fr o m.
+Proof.
+  intros Fr o m I HR. constructor; [apply (oi_keys _ I)| |apply (oi_claims _ I)|exact HR].
+  apply no_garbage_pointwise; [apply (oi_keys _ I)|apply (oi_ok _ I)].
+Qed.
+
+(* what a catch block of the fixed tree does *)
+Lemma on_failure_ok : forall Fr F o m why, part0 Fr o m -> clearable o ->
+  exists m', on_failure true F (o, m, Some why) = (empty_obj, m', Some why) /\ rel Fr empty_obj m'.
+Proof.
+  intros Fr F o m why HP HC. destruct (clear_ok _ F _ _ HP HC) as [m' [E HR]].
+  exists m'. simpl. rewrite E. split; [reflexivity|exact HR].
+Qed.
+
+(* ---------------------------------------------------------------------------------------------- *)
+(** * E3. the loops of read_fits / fit / convolve as simple programs *)
+
+Lemma allocs_flat_map : forall (g : nat -> list action) l, allocs (flat_map g l) = flat_map (fun i => allocs (g i)) l.
+Proof. induction l as [|a l IH]; simpl; [reflexivity|]. rewrite allocs_app, IH. reflexivity. Qed.
+Lemma touched_flat_map : forall (g : nat -> list action) l, touched (flat_map g l) = flat_map (fun i => touched (g i)) l.
+Proof. induction l as [|a l IH]; simpl; [reflexivity|]. rewrite touched_app, IH. reflexivity. Qed.
+Lemma map_as_flat_map : forall {A B} (g : A -> B) l, map g l = flat_map (fun i => [g i]) l.
+Proof. induction l as [|a l IH]; simpl; [reflexivity|]. rewrite IH. reflexivity. Qed.
+Lemma simple_flat_map : forall (g : nat -> list action) l, (forall i, forallb simple_action (g i) = true) -> forallb simple_action (flat_map g l) = true.
+Proof. intros g l H; induction l as [|a l IH]; simpl; [reflexivity|]. rewrite forallb_app, H, IH. reflexivity. Qed.
+
+Lemma wf_simple_flat_map : forall (g : nat -> list action) l,
+  (forall i, wf_simple (g i)) ->
+  (forall i j f, i <> j -> In f (allocs (g i)) -> ~ In f (touched (g j))) ->
+  NoDup l -> wf_simple (flat_map g l).
+Proof.
+  intros g l Hw Hd ND; induction l as [|a l IH]; simpl; [exact I|].
+  inversion ND as [|x l' Hnot ND']; subst.
+  apply wf_simple_app; [apply Hw|apply IH; exact ND'|].
+  intros f Hf Hin. rewrite touched_flat_map in Hin. apply in_flat_map in Hin. destruct Hin as [j [Hj Hin]].
+  apply (Hd a j f); auto. intros ->. contradiction.
+Qed.
+
+Lemma nodup_idx : forall n, NoDup (idx n).
+Proof. intros n. apply seq_NoDup. Qed.
+
+Definition aux_body (i : nat) : list action := [AAlloc (FAuxE i); AAlloc (FAuxK i); AAlloc (FAuxV i)].
+Definition aux_loop (k : nat) : list action := flat_map aux_body (idx k).
+Definition sets_loop (n : nat) : list action := flat_map (fun i => [ASet (FKnot i) Null]) (idx n).
+Definition knot_body (c1 c2 : nat -> bool) (i : nat) : list action := [AThrow RInput (c1 i); AAlloc (FKnot i); AThrow RInput (c2 i)].
+Definition knot_loop (c1 c2 : nat -> bool) (n : nat) : list action := flat_map (knot_body c1 c2) (idx n).
+Definition kalloc_loop (n : nat) : list action := flat_map (fun i => [AAlloc (FKnot i)]) (idx n).
+
+Lemma in_touched_aux_loop : forall f k, In f (touched (aux_loop k)) <-> exists i, i < k /\ (f = FAuxE i \/ f = FAuxK i \/ f = FAuxV i).
+Proof.
+  intros f k. unfold aux_loop. rewrite touched_flat_map, in_flat_map. split.
+  - intros [i [Hi Hf]]. exists i. apply in_idx in Hi. simpl in Hf. intuition (subst; auto).
+  - intros [i [Hi Hf]]. exists i. split; [apply in_idx; exact Hi|]. simpl. intuition (subst; auto).
+Qed.
+Lemma in_allocs_aux_loop : forall f k, In f (allocs (aux_loop k)) <-> exists i, i < k /\ (f = FAuxE i \/ f = FAuxK i \/ f = FAuxV i).
+Proof.
+  intros f k. unfold aux_loop. rewrite allocs_flat_map, in_flat_map. split.
+  - intros [i [Hi Hf]]. exists i. apply in_idx in Hi. simpl in Hf. intuition (subst; auto).
+  - intros [i [Hi Hf]]. exists i. split; [apply in_idx; exact Hi|]. simpl. intuition (subst; auto).
+Qed.
+Lemma in_touched_sets_loop : forall f n, In f (touched (sets_loop n)) <-> exists i, i < n /\ f = FKnot i.
+Proof.
+  intros f n. unfold sets_loop. rewrite touched_flat_map, in_flat_map. split.
+  - intros [i [Hi Hf]]. exists i. apply in_idx in Hi. simpl in Hf. intuition (subst; auto).
+  - intros [i [Hi Hf]]. exists i. split; [apply in_idx; exact Hi|]. simpl. auto.
+Qed.
+Lemma allocs_sets_loop : forall n, allocs (sets_loop n) = [].
+Proof. intros n. unfold sets_loop. rewrite allocs_flat_map. induction (idx n); simpl; auto. Qed.
+Lemma in_touched_knot_loop : forall f c1 c2 n, In f (touched (knot_loop c1 c2 n)) <-> exists i, i < n /\ f = FKnot i.
+Proof.
+  intros f c1 c2 n. unfold knot_loop. rewrite touched_flat_map, in_flat_map. split.
+  - intros [i [Hi Hf]]. exists i. apply in_idx in Hi. simpl in Hf. intuition (subst; auto).
+  - intros [i [Hi Hf]]. exists i. split; [apply in_idx; exact Hi|]. simpl. auto.
+Qed.
+Lemma in_allocs_knot_loop : forall f c1 c2 n, In f (allocs (knot_loop c1 c2 n)) <-> exists i, i < n /\ f = FKnot i.
+Proof.
+  intros f c1 c2 n. unfold knot_loop. rewrite allocs_flat_map, in_flat_map. split.
+  - intros [i [Hi Hf]]. exists i. apply in_idx in Hi. simpl in Hf. intuition (subst; auto).
+  - intros [i [Hi Hf]]. exists i. split; [apply in_idx; exact Hi|]. simpl. auto.
+Qed.
+Lemma in_touched_kalloc_loop : forall f n, In f (touched (kalloc_loop n)) <-> exists i, i < n /\ f = FKnot i.
+Proof.
+  intros f n. unfold kalloc_loop. rewrite touched_flat_map, in_flat_map. split.
+  - intros [i [Hi Hf]]. exists i. apply in_idx in Hi. simpl in Hf. intuition (subst; auto).
+  - intros [i [Hi Hf]]. exists i. split; [apply in_idx; exact Hi|]. simpl. auto.
+Qed.
+Lemma in_allocs_kalloc_loop : forall f n, In f (allocs (kalloc_loop n)) <-> exists i, i < n /\ f = FKnot i.
+Proof.
+  intros f n. unfold kalloc_loop. rewrite allocs_flat_map, in_flat_map. split.
+  - intros [i [Hi Hf]]. exists i. apply in_idx in Hi. simpl in Hf. intuition (subst; auto).
+  - intros [i [Hi Hf]]. exists i. split; [apply in_idx; exact Hi|]. simpl. auto.
+Qed.
+
+Lemma wf_aux_loop : forall k, wf_simple (aux_loop k).
+Proof.
+  intros k. apply wf_simple_flat_map; [| |apply nodup_idx].
+  - intros i. simpl. intuition discriminate.
+  - intros i j f Hne Hf Hin. simpl in Hf, Hin. intuition (subst; try discriminate; congruence).
+Qed.
+Lemma wf_sets_loop : forall n, wf_simple (sets_loop n).
+Proof.
+  intros n. apply wf_simple_flat_map; [| |apply nodup_idx].
+  - intros i. exact I.
+  - intros i j f Hne Hf Hin. simpl in Hf. contradiction.
+Qed.
+Lemma wf_knot_loop : forall c1 c2 n, wf_simple (knot_loop c1 c2 n).
+Proof.
+  intros c1 c2 n. apply wf_simple_flat_map; [| |apply nodup_idx].
+  - intros i. simpl. intuition.
+  - intros i j f Hne Hf Hin. simpl in Hf, Hin. intuition (subst; try discriminate; congruence).
+Qed.
+Lemma wf_kalloc_loop : forall n, wf_simple (kalloc_loop n).
+Proof.
+  intros n. apply wf_simple_flat_map; [| |apply nodup_idx].
+  - intros i. simpl. intuition.
+  - intros i j f Hne Hf Hin. simpl in Hf, Hin. intuition (subst; try discriminate; congruence).
+Qed.
+
+(* fields touched by a loop are recognisable by their constructor: used to discharge disjointness *)
+Ltac loop_mem :=
+  repeat match goal with
+  | H : In _ (touched (aux_loop _)) |- _ => apply in_touched_aux_loop in H; destruct H as [? [? [?|[?|?]]]]
+  | H : In _ (allocs (aux_loop _)) |- _ => apply in_allocs_aux_loop in H; destruct H as [? [? [?|[?|?]]]]
+  | H : In _ (touched (sets_loop _)) |- _ => apply in_touched_sets_loop in H; destruct H as [? [? ?]]
+  | H : In _ (allocs (sets_loop _)) |- _ => rewrite allocs_sets_loop in H; destruct H
+  | H : In _ (touched (knot_loop _ _ _)) |- _ => apply in_touched_knot_loop in H; destruct H as [? [? ?]]
+  | H : In _ (allocs (knot_loop _ _ _)) |- _ => apply in_allocs_knot_loop in H; destruct H as [? [? ?]]
+  | H : In _ (touched (kalloc_loop _)) |- _ => apply in_touched_kalloc_loop in H; destruct H as [? [? ?]]
+  | H : In _ (allocs (kalloc_loop _)) |- _ => apply in_allocs_kalloc_loop in H; destruct H as [? [? ?]]
+  end.
+Ltac split_in H :=
+  repeat (rewrite ?touched_app, ?allocs_app in H; cbn [touched allocs] in H);
+  repeat (rewrite in_app_iff in H || (cbn [In] in H)).
+
+(* ---------------------------------------------------------------------------------------------- *)
+(** * E4. read_fits *)
+
+Definition RS1 (f : file) : list action :=
+  [AAlloc FAux] ++ aux_loop (length (f_aux f)) ++ [AAlloc FOrder; AThrow RInput (phase_eqb (f_fail f) POrder); AAlloc FPeriods].
+Definition RS2 (f : file) : list action := sets_loop (f_ndim f) ++ [AAlloc FNknots].
+Definition RS3 (f : file) : list action :=
+  [ASet FExtents0 Null; AAlloc FExtents0; AThrow RInput (phase_eqb (f_fail f) PImgSize);
+   AAlloc FNaxes; AAlloc FStrides; AAlloc FCoeff; AThrow RInput (phase_eqb (f_fail f) PCoeff)]
+  ++ knot_loop (fun i => phase_eqb (f_fail f) (PKnotSize i)) (fun i => phase_eqb (f_fail f) (PKnotData i)) (f_ndim f)
+  ++ [AThrow RInput (phase_eqb (f_fail f) PExtents)].
+Definition read_simple (f : file) : list action := RS1 f ++ AAlloc FKnots :: RS2 f ++ AAlloc FExtents :: RS3 f.
+
+Lemma aux_loop_combine : forall (l : list (auxent * nat)) s,
+  flat_map (fun ie : nat * (auxent * nat) => [AAlloc (FAuxE (fst ie)); AAlloc (FAuxK (fst ie)); AAlloc (FAuxV (fst ie))]) (combine (seq s (length l)) l)
+  = flat_map aux_body (seq s (length l)).
+Proof. induction l as [|a l IH]; intros s; simpl; [reflexivity|]. rewrite IH. reflexivity. Qed.
+
+Lemma read_core_split : forall o f,
+  read_core_prog cfg_fixed o f
+  = [AThrow RInput (phase_eqb (f_fail f) PHdu || phase_eqb (f_fail f) PDim); ANdim (f_ndim f); AShape (f_orders f) (f_nknots f) (f_naxes f)]
+    ++ map AFreeIf (aux_flds (naux o))
+    ++ [AAuxs 0 []; AAuxs (length (f_aux f)) (map fst (f_aux f))] ++ read_simple f.
+Proof.
+  intros o f. unfold read_core_prog, read_aux_prog, aux_release_fixed, read_simple, RS1, RS2, RS3, aux_flds, knot_loop, knot_body, sets_loop.
+  cbn [fx_aux fx_clear fx_auxsize cfg_fixed].
+  rewrite flat_map_freeif3. unfold idx. rewrite (aux_loop_combine (f_aux f) 0).
+  rewrite <- map_as_flat_map. rewrite map_app.
+  repeat (rewrite <- app_assoc; cbn [app map]). reflexivity.
+Qed.
+
+Ltac kill_mem := intuition idtac; subst; loop_mem; subst; try discriminate; try congruence; try contradiction.
+Ltac wfs :=
+  repeat match goal with
+  | |- wf_simple (_ ++ _) => apply wf_simple_app
+  | |- wf_simple (AAlloc _ :: _) => cbn [wf_simple]; split
+  | |- wf_simple (_ :: _) => cbn [wf_simple]
+  | |- wf_simple [] => exact I
+  | |- True => exact I
+  | |- _ /\ _ => split
+  | |- wf_simple (aux_loop _) => apply wf_aux_loop
+  | |- wf_simple (sets_loop _) => apply wf_sets_loop
+  | |- wf_simple (knot_loop _ _ _) => apply wf_knot_loop
+  | |- wf_simple (kalloc_loop _) => apply wf_kalloc_loop
+  | |- ~ In _ _ => let H := fresh "H" in intros H; split_in H; kill_mem
+  | |- forall f, In f (allocs _) -> ~ In f (touched _) =>
+      let g := fresh "g" in let H1 := fresh "H" in let H2 := fresh "H" in
+      intros g H1 H2; split_in H1; split_in H2; kill_mem
+  end.
+
+Lemma simple_read : forall f, forallb simple_action (read_simple f) = true.
+Proof.
+  intros f. unfold read_simple, RS1, RS2, RS3, aux_loop, knot_loop, sets_loop.
+  repeat (rewrite forallb_app || (rewrite simple_flat_map by (intros; reflexivity)) || (progress simpl)).
+  reflexivity.
+Qed.
+
+Lemma wf_read : forall f, wf_simple (read_simple f).
+Proof. intros f. unfold read_simple, RS1, RS2, RS3. wfs. Qed.
+
+Arguments obj_inv_part0 {Fr o m} _ _.
+Arguments obj_inv_clearable {o} _.
+Arguments on_failure_ok {Fr} F {o m} why _ _.
+Arguments part0_recore {Fr} o o' {m} _ _ _.
+Arguments exec_freeifs {Fr} F fs {o m} _.
+Arguments exec_simple {Fr} F p {o m} _ _ _ _.
+Arguments oi_keys {o} _. Arguments oi_ok {o} _ _. Arguments oi_claims {o} _ _ _ _ _. Arguments oi_dom {o} _ _ _.
+Arguments oi_aux0 {o} _ _. Arguments oi_auxi {o} _ _ _. Arguments oi_auxlen {o} _. Arguments oi_len {o} _.
+Arguments oi_tbl0 {o} _ _ _ _. Arguments oi_tbl {o} _ _ _ _.
+
+Lemma in_allocs_read : forall f g, In g (allocs (read_simple f)) <->
+  In g [FAux; FOrder; FPeriods; FKnots; FNknots; FExtents; FExtents0; FNaxes; FStrides; FCoeff]
+  \/ (exists i, i < length (f_aux f) /\ (g = FAuxE i \/ g = FAuxK i \/ g = FAuxV i))
+  \/ (exists i, i < f_ndim f /\ g = FKnot i).
+Proof.
+  intros f g. unfold read_simple, RS1, RS2, RS3.
+  repeat (rewrite ?allocs_app; cbn [allocs]). repeat (rewrite in_app_iff || cbn [In]).
+  rewrite in_allocs_aux_loop, allocs_sets_loop, in_allocs_knot_loop. cbn [In]. intuition.
+Qed.
+
+Lemma tbl_fields_not_aux : forall g n, In g (tbl_fields n) -> is_aux_field g = false.
+Proof. intros g n H. apply in_tbl_fields in H. destruct H as [H|[i [_ ->]]]; [simpl in H; intuition (subst; reflexivity)|reflexivity]. Qed.
+
+Lemma full_fields_cases : forall g n k, In g (full_fields n k) -> (is_aux_field g = false) \/ In g (aux_flds k).
+Proof.
+  intros g n k [<-|H]; [left; reflexivity|]. apply in_app_or in H. destruct H as [H|H]; [left; eapply tbl_fields_not_aux; eauto|right; exact H].
+Qed.
+
+Lemma in_full_fields : forall g n k, In g (full_fields n k) <-> g = FPeriods \/ In g (tbl_fields n) \/ In g (aux_flds k).
+Proof. intros g n k. unfold full_fields. cbn [In]. rewrite in_app_iff. intuition. Qed.
+
+Lemma allocs_read_full : forall f g, In g (allocs (read_simple f)) -> In g (full_fields (f_ndim f) (length (f_aux f))).
+Proof.
+  intros f g H. apply in_allocs_read in H. apply in_full_fields. rewrite in_tbl_fields, in_aux_flds.
+  destruct H as [H|[[i [Hi H]]|[i [Hi H]]]].
+  - simpl in H. simpl. intuition (subst; auto 12).
+  - right; right; right. exists i. intuition.
+  - right; left; right. exists i. auto.
+Qed.
+
+Lemma read_ok : forall Fr F o m f o' m' r,
+  obj_inv o -> rel Fr o m -> f_ndim f <> 0 -> length (f_naxes f) = f_ndim f ->
+  step_read cfg_fixed F m o f = (o', m', r) -> obj_inv o' /\ rel Fr o' m'.
+Proof.
+  intros Fr F o m f o' m' r I HR Hnd Hlen H. unfold step_read in H.
+  destruct (Nat.eqb_spec (ndim o) 0) as [E0|E0]; cbn [negb] in H; [|inversion H; subst; auto].
+  destruct (f_open_fails f); [inversion H; subst; auto|].
+  cbn [fx_clear cfg_fixed] in H. rewrite read_core_split in H. cbn [app exec] in H.
+  pose proof (obj_inv_part0 I HR) as HP.
+  destruct (phase_eqb (f_fail f) PHdu || phase_eqb (f_fail f) PDim).
+  { destruct (on_failure_ok F RInput HP (obj_inv_clearable I)) as [m1 [E1 HR1]]. rewrite E1 in H. inversion H; subst.
+    split; [apply obj_inv_empty|exact HR1]. }
+  set (o1 := with_shape (with_ndim o (f_ndim f)) (f_orders f) (f_nknots f) (f_naxes f)) in *.
+  assert (HP1 : part0 Fr o1 m).
+  { apply (part0_recore o o1 eq_refl); [|exact HP]. intros g id b Hg.
+    change (get o1 g) with (get o g) in Hg. rewrite (oi_claims I _ _ _ Hg).
+    destruct (is_aux_field g) eqn:Ea; [destruct g; try discriminate; reflexivity|].
+    rewrite (oi_tbl0 I E0 _ Ea) in Hg. discriminate. }
+  rewrite exec_app in H.
+  destruct (exec_freeifs F (aux_flds (naux o)) HP1) as [o2 [m2 [E2 [HP2 [Hc2 [H21 H22]]]]]].
+  rewrite E2 in H. cbn [app exec] in H.
+  set (o3 := with_auxs (with_auxs o2 0 []) (length (f_aux f)) (map fst (f_aux f))) in *.
+  assert (Hnull : forall g, get o3 g = Null).
+  { intros g. change (get o3 g) with (get o2 g).
+    destruct (in_dec field_eq_dec g (aux_flds (naux o))) as [Hi|Hi]; [apply H21; exact Hi|].
+    rewrite (H22 _ Hi). change (get o1 g) with (get o g).
+    destruct (get o g) eqn:Eg; try reflexivity; exfalso.
+    all: assert (Hd : In g (full_fields (ndim o) (naux o))) by (apply (oi_dom I); rewrite Eg; discriminate).
+    all: destruct (full_fields_cases _ _ _ Hd) as [Ha|Ha]; [rewrite (oi_tbl0 I E0 _ Ha) in Eg; discriminate|contradiction]. }
+  assert (HP3 : part0 Fr o3 m2).
+  { apply (part0_recore o2 o3 eq_refl); [|exact HP2]. intros g id b Hg. rewrite Hnull in Hg. discriminate. }
+  assert (Hcore3 : core o3 = (f_ndim f, f_orders f, f_nknots f, f_naxes f, length (f_aux f), map fst (f_aux f))).
+  { unfold core in *. simpl in Hc2. inversion Hc2. simpl. congruence. }
+  destruct (exec_simple F (read_simple f) (simple_read f) (wf_read f) (fun g _ => Hnull g) HP3)
+    as [o4 [m4 [r4 [p1 [p2 [E4 [Ep [Er [HP4 [Hc4 [H41 H42]]]]]]]]]]].
+  rewrite E4 in H. rewrite Hcore3 in Hc4. unfold core in Hc4. inversion Hc4 as [[Hn4 Ho4 Hk4 Hx4 Ha4 Hl4]].
+  assert (Hdom : forall g, get o4 g <> Null -> In g (allocs p1)).
+  { intros g Hg. destruct (in_dec field_eq_dec g (allocs p1)) as [Hi|Hi]; [exact Hi|]. rewrite (H42 _ Hi), Hnull in Hg. congruence. }
+  assert (Hsub : forall g, In g (allocs p1) -> In g (allocs (read_simple f))).
+  { intros g Hg. rewrite Ep, allocs_app. apply in_or_app; left; exact Hg. }
+  assert (Hfull : forall g, get o4 g <> Null -> In g (full_fields (ndim o4) (naux o4))).
+  { intros g Hg. rewrite Hn4, Ha4. apply allocs_read_full. apply Hsub. apply Hdom. exact Hg. }
+  destruct r4 as [why|].
+  - (* the read stopped half-way: clear() *)
+    assert (HC4 : clearable o4).
+    { apply clearable_intro; [exact Hfull| |].
+      - intros i Hi. apply owned_not_null. apply H41.
+        apply (prefix_dep p1 p2 (RS1 f) (RS2 f ++ AAlloc FExtents :: RS3 f) FKnots (FKnot i)); [symmetry; exact Ep| |apply Hdom; exact Hi].
+        intros Hin. unfold RS1 in Hin. split_in Hin. kill_mem.
+      - intros Hi. apply owned_not_null. apply H41.
+        apply (prefix_dep p1 p2 (RS1 f ++ AAlloc FKnots :: RS2 f) (RS3 f) FExtents FExtents0); [| |apply Hdom; exact Hi].
+        + rewrite <- Ep. unfold read_simple. rewrite <- app_assoc. reflexivity.
+        + intros Hin. unfold RS1, RS2 in Hin. split_in Hin. kill_mem. }
+    destruct (on_failure_ok F why HP4 HC4) as [m5 [E5 HR5]]. rewrite E5 in H. inversion H; subst.
+    split; [apply obj_inv_empty|exact HR5].
+  - (* complete *)
+    cbn [on_failure] in H. inversion H; subst o' m' r. clear H.
+    rewrite (Er eq_refl), app_nil_r in Ep. subst p1.
+    assert (Hown : forall g, In g (allocs (read_simple f)) -> is_owned (get o4 g) = true) by exact H41.
+    destruct HP4 as [HK4 HG4 HC4 HR4]. split; [|exact HR4].
+    constructor; auto.
+    + intros g. apply no_garbage_get. exact HG4.
+    + intros _. apply Hown. apply in_allocs_read. left. simpl; auto.
+    + intros i Hi. rewrite Ha4 in Hi. repeat split; apply Hown; apply in_allocs_read; right; left; exists i; auto.
+    + rewrite Hl4, Ha4. apply map_length.
+    + rewrite Hx4, Hn4. exact Hlen.
+    + intros E. rewrite Hn4 in E. contradiction.
+    + intros _ g Hg. apply Hown. apply in_allocs_read. rewrite Hn4 in Hg. apply in_tbl_fields in Hg.
+      destruct Hg as [Hg|Hg]; [left; simpl in *; intuition|right; right; exact Hg].
+Qed.
